@@ -25,6 +25,8 @@ _MIX = {}
 def mk_id(code, scheme):
     if scheme == "int":
         return code
+    if scheme == "jstr":      # JSON-native ids including the falsy empty string
+        return "" if code == 2 else ("n%d" % code if code >= 26 else "abc\u00e9efghijklmnopqrstuvwxyz"[code])
     if scheme == "str":
         return "n%d" % code if code >= 26 else "abc\u00e9efghijklmnopqrstuvwxyz"[code]
     # mixed hashables; Python-equal ids must stay distinct per code
